@@ -16,16 +16,18 @@
 (*                      rebuilt from storage (both by the real code)]      *)
 (*                                                                         *)
 (* One TLC behaviour per trace: state = (tid, l, store, ixValid, err).     *)
-(* Each step consumes one event and checks, in this order, the clauses     *)
+(* Each step consumes one event and checks the clauses                     *)
 (*   raises     the call raised iff the specification says it must         *)
 (*   result     the returned value equals Result(a, store)                 *)
 (*   store      the projected contents equal StoreAfter(a, store)          *)
 (*   valid      the validity flag is inside the envelope ValidAllowed      *)
 (*   index      a valid index answers like one rebuilt from storage (query  *)
 (*              matches, keys, values, timestamps) and has the right length *)
-(* The first failing clause is recorded in `err` (with what was expected)  *)
-(* and the trace stops there; every trace ends with exactly one VERDICT    *)
-(* line, so verdicts are total and name the failing clause.                *)
+(* A failing clause is recorded in `err` (step, clause, what was expected) *)
+(* and the trace goes on from the LOGGED state, so that each later call is *)
+(* judged relative to the contents the implementation really had and each *)
+(* property's own clauses get their verdict (at most MaxErrs per trace).   *)
+(* Every trace ends with exactly one VERDICT line: verdicts are total.     *)
 (***************************************************************************)
 EXTENDS TinyFlux, Json, IOUtils
 
@@ -37,6 +39,7 @@ Traces == Input.traces
 tvars == <<tid, l, store, ixValid, ix, err>>
 
 NoErr == <<>>
+MaxErrs == 6
 
 TraceInit ==
   /\ tid \in 1..Len(Traces)
@@ -50,50 +53,115 @@ Ev == Traces[tid].events[l]
 
 Raised(ev) == ev.exc # ""
 
+(* Access modes of a CSV database (C15): "r" - reads only; "a" - inserts    *)
+(* only; "r+" / "w+" - everything.  A forbidden operation must raise and    *)
+(* change nothing.                                                          *)
+Mode == IF "mode" \in DOMAIN Traces[tid] THEN Traces[tid].mode ELSE "r+"
+WriteOps == {"insert", "insert_multiple", "remove", "drop_measurement", "remove_all", "update", "update_all"}
+Forbidden(a) ==
+  CASE Mode = "r" -> a.op \in WriteOps \/ (a.op = "bad" /\ a.entry \notin {"ctor", "setter"})
+    [] Mode = "a" -> a.op \notin {"insert", "insert_multiple", "reopen"} /\ ~ (a.op = "bad" /\ a.entry \in {"ctor", "setter", "insert_meas"})
+    [] OTHER -> FALSE
+
 (* operations whose failure the specification decides; "bad" operations    *)
 (* (wrongly typed arguments, C14 / C11) must raise                         *)
 RaisesOK(a, ev) ==
-  CASE a.op = "bad" -> Raised(ev)
+  CASE Forbidden(a) -> Raised(ev)
+    [] a.op = "bad" -> /\ Raised(ev) = MustRaise(a, store)
+                       /\ (Raised(ev) => ev.exc \in {"ValueError", "TypeError"})
     [] OTHER -> Raised(ev) = MustRaise(a, store)
 
-ExpStore(a) == IF a.op = "bad" THEN store ELSE StoreAfter(a, store)
+ExpStore(a) == IF Forbidden(a) THEN store ELSE StoreAfter(a, store)
+(* events of traces whose contents cannot be projected at every step       *)
+(* (flush_on_insert = False: the file may lag) carry nostore = 1; the      *)
+(* specification's own contents are carried forward and compared with the  *)
+(* file at the next close                                                  *)
+NoStore(ev) == "nostore" \in DOMAIN ev /\ ev.nostore = 1
 
 IndexOK(ev) ==
   ev.valid = 1 =>
     /\ ev.ix.n = Len(ev.store)
     /\ ev.ix.live = ev.ix.fresh
 
-FirstFailing(a, ev) ==
-  CASE ~ RaisesOK(a, ev) ->
-         [clause |-> "raises", expected |-> IF a.op = "bad" THEN 1 ELSE Bool01(MustRaise(a, store))]
-    [] ~ Raised(ev) /\ a.op # "bad" /\ ev.res # Result(a, store) ->
-         [clause |-> "result", expected |-> Result(a, store)]
-    [] ev.store # ExpStore(a) ->
-         [clause |-> "store", expected |-> ExpStore(a)]
-    [] ~ ValidAllowed(a, store, ixValid, ev.valid = 1, Raised(ev)) ->
-         [clause |-> "valid", expected |-> 1]
-    [] ~ IndexOK(ev) ->
-         [clause |-> "index", expected |-> ev.ix.fresh]
-    [] OTHER -> NoErr
+(***************************************************************************)
+(* I/O-level observations (recorded by harness/ioproxy.py for CSV          *)
+(* storage): when an event carries a field `io`, the storage properties    *)
+(* are judged on it as well.                                               *)
+(*   io.snaps     the distinct decodings of the database file's            *)
+(*                kernel-visible bytes at every I/O boundary of the call   *)
+(*                (what a crash at that boundary leaves behind)            *)
+(*   io.file      decoding of the file after the call returned             *)
+(*   io.reopened  contents seen by a fresh read-only TinyFlux on the file  *)
+(*   io.same      1 iff the file bytes after the call equal those before   *)
+(*   io.tmp       files in the temp / database directory that exist after  *)
+(*                the call and did not exist before it                     *)
+(*   io.calls     the I/O calls made on the primary file, each with        *)
+(*                [call, atend, prefix]: the call kind, whether a write /  *)
+(*                truncate happened at (or beyond) the old end of file,    *)
+(*                whether the old bytes are still a prefix of the file     *)
+(***************************************************************************)
+HasIO(ev) == "io" \in DOMAIN ev
+
+StoredPrefixes(s, ps, m) == {InsertManyStore(s, SubSeq(ps, 1, k), m) : k \in 0..Len(ps)}
+
+(* contents a crash (C12) or a failed I/O call (C13) may leave behind       *)
+CrashAllowed(a, s) ==
+  {s, StoreAfter(a, s)} \cup (IF a.op = "insert_multiple" THEN StoredPrefixes(s, a.ps, a.m) ELSE {})
+
+AppendCalls == {"seek", "write", "flush", "fsync", "truncate", "tell"}
+MaxCallsPerPoint == 8
+
+NoWriteOps == ReadOps \cup {"reindex", "bad"}
+
+IOFailing(a, ev) ==
+  IF ~ HasIO(ev) THEN {} ELSE
+  LET io == ev.io
+      new == IF Forbidden(a) \/ (Raised(ev) /\ a.op # "insert_multiple") THEN store ELSE StoreAfter(a, store)
+      nochange == a.op \in NoWriteOps \/ new = store
+      badSnaps == {i \in 1..Len(io.snaps) : io.snaps[i] \notin CrashAllowed(a, store)}
+  IN   (IF badSnaps # {} THEN {[clause |-> "crash", expected |-> SetToSeq(badSnaps)]} ELSE {})
+  \cup (IF "file" \in DOMAIN io /\ (io.file # new \/ io.reopened # new) THEN {[clause |-> "file", expected |-> new]} ELSE {})
+  \cup (IF a.op \in {"insert", "insert_multiple"} /\
+           \E i \in 1..Len(io.calls) : \/ io.calls[i].call \notin AppendCalls
+                                        \/ io.calls[i].prefix = 0
+                                        \/ (io.calls[i].call \in {"write", "truncate"} /\ io.calls[i].atend = 0)
+        THEN {[clause |-> "append", expected |-> 0]} ELSE {})
+  \cup (IF a.op \in {"insert", "insert_multiple"} /\ ~ Raised(ev) /\
+           Len(io.calls) > MaxCallsPerPoint * (IF a.op = "insert" THEN 1 ELSE Len(a.ps) + 1)
+        THEN {[clause |-> "cost", expected |-> MaxCallsPerPoint]} ELSE {})
+  \cup (IF nochange /\ io.same = 0 THEN {[clause |-> "unchanged", expected |-> 1]} ELSE {})
+  \cup (IF io.tmp # 0 THEN {[clause |-> "tmp", expected |-> 0]} ELSE {})
+
+Failing(a, ev) ==
+     (IF ~ RaisesOK(a, ev) THEN {[clause |-> "raises", expected |-> Bool01(MustRaise(a, store))]} ELSE {})
+  \cup (IF RaisesOK(a, ev) /\ ~ Raised(ev) /\ ev.res # Result(a, store)
+        THEN {[clause |-> "result", expected |-> Result(a, store)]} ELSE {})
+  \cup (IF ~ NoStore(ev) /\ ev.store # ExpStore(a) THEN {[clause |-> "store", expected |-> ExpStore(a)]} ELSE {})
+  \cup (IF ~ ValidAllowed(a, store, ixValid, ev.valid = 1, Raised(ev)) THEN {[clause |-> "valid", expected |-> 1]} ELSE {})
+  \cup (IF ~ IndexOK(ev) THEN {[clause |-> "index", expected |-> ev.ix.fresh]} ELSE {})
+  \cup IOFailing(a, ev)
+
+(* a logged store the specification cannot adopt (it contains a value the  *)
+(* harness could not name) ends the trace                                  *)
+Adoptable(s) == \A i \in 1..Len(s) : s[i].t >= 0
 
 TraceNext ==
-  /\ err = NoErr
+  /\ Len(err) < MaxErrs
   /\ l <= Len(Traces[tid].events)
+  /\ (l > 1 => Adoptable(store))
   /\ LET ev == Ev
          a  == ev.a
-         f  == FirstFailing(a, ev)
-     IN IF f = NoErr
-        THEN /\ store' = ev.store /\ ixValid' = (ev.valid = 1) /\ l' = l + 1 /\ err' = NoErr
-        ELSE /\ err' = [step |-> l, clause |-> f.clause, expected |-> f.expected]
-             /\ UNCHANGED <<store, ixValid, l>>
+         F  == SetToSeq(Failing(a, ev))
+     IN /\ err' = err \o [i \in 1..Len(F) |-> [step |-> l, clause |-> F[i].clause, expected |-> F[i].expected]]
+        /\ store' = (IF NoStore(ev) THEN ExpStore(a) ELSE ev.store)
+        /\ ixValid' = (ev.valid = 1) /\ l' = l + 1
   /\ UNCHANGED <<tid, ix>>
 
-Done == err # NoErr \/ l > Len(Traces[tid].events)
+Done == Len(err) >= MaxErrs \/ l > Len(Traces[tid].events) \/ (l > 1 /\ ~ Adoptable(store))
 
 Verdict ==
-  Done => PrintT(<<"VERDICT", ToJson([id |-> Traces[tid].id, ok |-> Bool01(err = NoErr), steps |-> l - 1,
-                                      err |-> IF err = NoErr THEN [step |-> 0, clause |-> "", expected |-> 0] ELSE err])>>)
+  Done => PrintT(<<"VERDICT", ToJson([id |-> Traces[tid].id, ok |-> Bool01(err = NoErr), steps |-> l - 1, errs |-> err])>>)
 
 (* invariants of the specification evaluated on every state of every trace *)
-TraceTyped == WellTyped(store)
+TraceTyped == Adoptable(store) => WellTyped(store)
 =============================================================================
